@@ -350,8 +350,11 @@ AddAll(st, q) ==
 Load(st, ls) ==
   LET fin == UNION {IF a.res # "ok" THEN {a} ELSE ProcessQueue(a.st) : a \in AddAll(st, ls)} IN
   Commit(st, fin) \cup
-    {Fail(st, "Error") : f \in {x \in fin : x.res = "ok" /\ st.vlevel > 0 /\
+    UNION {{Fail(st, "Error"), [st |-> f.st, res |-> "Error"]} :
+             f \in {x \in fin : x.res = "ok" /\ st.vlevel > 0 /\
                                  (PlaceholderIds(x.st) # {} \/ VirtLinkKeys(x.st) # {})}}
+    \* (read_file on an existing Gfa keeps what it loaded when the final validation fails;
+    \*  a failing constructor leaves no object at all)
 
 \* --- tag edits on a connected line (the tag travels in op.l.tags / op.l.tagn) ---
 WithoutTag(l, n) ==
